@@ -77,6 +77,12 @@ type pathState struct {
 	checks    int
 	newDec    int // solver-decided (non-replayed) decisions on this path
 	notes     []string
+	// model is a satisfying assignment of the path condition (nil = none known). It saves one
+	// of the two queries of every branch decision: the direction the model takes is feasible.
+	lastSatExtra *Term
+	model   map[string]*big.Int // bools as 0/1
+	modelOK bool
+	checked int // number of constraints of order known to hold under model
 }
 
 // Finding is a violated check, an escaped panic of the target program, or a budget hit.
@@ -103,6 +109,7 @@ type Stats struct {
 	Checks                                       int
 	Reached                                      map[string]int
 	Findings                                     []Finding
+	ModelHits, Fallbacks                         int
 	Unsupported                                  map[string]int
 	Samples                                      []Sample
 	MaxQuery                                     time.Duration
@@ -152,6 +159,8 @@ func (sm *summaryRun) decide(c *Term, key string) bool {
 }
 
 type Explorer struct {
+	alt, lastZ *z3proc
+	witness    map[string]*big.Int
 	summary    *summaryRun
 	Summaries  map[string]bool
 	z          *z3proc
@@ -183,7 +192,7 @@ func isEnginePanic(r interface{}) bool {
 
 func (p *pathState) fresh(prefix string, lo, hi *big.Int) *Term {
 	p.nvars++
-	v := mkTerm(&Term{op: "var", name: fmt.Sprintf("%s%d", prefix, p.nvars), lo: lo, hi: hi})
+	v := mkTerm(&Term{op: "var", name: fmt.Sprintf("%s%d", prefix, p.nvars), lo: lo, hi: hi, loInit: lo})
 	p.vars = append(p.vars, v)
 	if lo != nil {
 		p.side(mkTerm(&Term{op: "<=", args: []*Term{tConst(lo), v}, isBool: true}))
@@ -289,6 +298,22 @@ func (e *Explorer) feasible(extra *Term) string {
 	t0 := time.Now()
 	e.z.send(sb.String())
 	res := e.z.readLine()
+	e.lastZ = e.z
+	if res != "sat" && res != "unsat" {
+		// undecided by the primary solver within its time limit: ask a second solver (z3 5.1.0)
+		// with a longer limit before giving up; only a definite answer is ever used
+		e.Stats.Fallbacks++
+		if e.alt == nil {
+			e.alt = startSolver("z3-new", nil)
+		}
+		q := sb.String()
+		if e.TimeoutMs > 0 {
+			q = strings.Replace(q, fmt.Sprintf("(set-option :timeout %d)", e.TimeoutMs), fmt.Sprintf("(set-option :timeout %d)", 6*e.TimeoutMs), 1)
+		}
+		e.alt.send(q)
+		res = e.alt.readLine()
+		e.lastZ = e.alt
+	}
 	d := time.Since(t0)
 	e.Stats.SolverTime += d
 	if d > e.Stats.MaxQuery {
@@ -298,8 +323,10 @@ func (e *Explorer) feasible(extra *Term) string {
 		fmt.Fprintf(e.z.log, "; RESULT %s %d ms\n", res, d.Milliseconds())
 	}
 	e.Stats.Queries++
+	p.lastSatExtra = nil
 	switch res {
 	case "sat":
+		p.lastSatExtra = extra
 		e.Stats.Sat++
 	case "unsat":
 		e.Stats.Unsat++
@@ -309,69 +336,11 @@ func (e *Explorer) feasible(extra *Term) string {
 	return res
 }
 
-// model returns the values of the harness inputs under the model of the last sat query.
-func (e *Explorer) model() []InputVal {
-	p := e.cur
-	var out []InputVal
-	if len(p.inputs) == 0 {
-		return out
-	}
-	var sb strings.Builder
-	sb.WriteString("(get-value (")
-	for _, v := range p.inputs {
-		sb.WriteString(v.t.name + " ")
-	}
-	sb.WriteString("))\n")
-	e.z.send(sb.String())
-	depth, started := 0, false
-	var ob strings.Builder
-	for !started || depth > 0 {
-		line := e.z.readLine()
-		ob.WriteString(line + " ")
-		for _, c := range line {
-			if c == '(' {
-				depth++
-				started = true
-			} else if c == ')' {
-				depth--
-			}
-		}
-	}
-	s := ob.String()
-	for _, v := range p.inputs {
-		i := strings.Index(s, "("+v.t.name+" ")
-		val := ""
-		if i >= 0 {
-			rest := s[i+len(v.t.name)+2:]
-			d := 0
-			j := 0
-			for ; j < len(rest); j++ {
-				if rest[j] == '(' {
-					d++
-				} else if rest[j] == ')' {
-					if d == 0 {
-						break
-					}
-					d--
-				}
-			}
-			val = strings.TrimSpace(rest[:j])
-		}
-		// normalise "(- 5)" to "-5"
-		if strings.HasPrefix(val, "(-") {
-			val = "-" + strings.TrimSpace(strings.TrimSuffix(strings.TrimPrefix(val, "(-"), ")"))
-		}
-		out = append(out, InputVal{Name: v.t.name, Kind: v.kind, Value: val})
-	}
-	return out
-}
-
 func (e *Explorer) modelNow() []InputVal {
-	r := e.feasible(tBool(true))
-	if r != "sat" {
+	if e.sat(tBool(true)) != "sat" {
 		return nil
 	}
-	return e.model()
+	return e.inputsOf(e.witness)
 }
 
 func (e *Explorer) addFinding(f Finding) {
@@ -437,11 +406,19 @@ func decide(c *Term) bool {
 	if p.pos < len(p.prefix) {
 		return record(p.prefix[p.pos])
 	}
-	// new decision: try true first
-	rt := e.feasible(c)
+	// new decision: the direction the kept model takes needs no query
+	rt := e.sat(c)
+	wt := e.witness
 	rf := "sat" // the path condition is satisfiable (invariant), so if c is unsat, not-c is sat
+	var wf map[string]*big.Int
 	if rt != "unsat" {
-		rf = e.feasible(tNot(c))
+		rf = e.sat(tNot(c))
+		wf = e.witness
+	} else {
+		p.syncModel()
+		if p.modelOK {
+			wf = p.model
+		}
 	}
 	if rt != "sat" && rt != "unsat" || rf != "sat" && rf != "unsat" {
 		panic(unsupported("solver returned " + rt + "/" + rf + " on a branch condition"))
@@ -451,11 +428,17 @@ func decide(c *Term) bool {
 	case rt == "sat" && rf == "sat":
 		alt := append(append([]decision{}, p.log...), decision{taken: false})
 		e.work = append(e.work, alt)
-		return record(decision{taken: true})
+		r := record(decision{taken: true})
+		p.adopt(wt)
+		return r
 	case rt == "sat":
-		return record(decision{taken: true, forced: true})
+		r := record(decision{taken: true, forced: true})
+		p.adopt(wt)
+		return r
 	case rf == "sat":
-		return record(decision{taken: false, forced: true})
+		r := record(decision{taken: false, forced: true})
+		p.adopt(wf)
+		return r
 	}
 	panic(pathAbort{"infeasible path"})
 }
@@ -589,6 +572,10 @@ func startZ3(log io.Writer) *z3proc {
 	if bin == "" {
 		bin = "z3"
 	}
+	return startSolver(bin, log)
+}
+
+func startSolver(bin string, log io.Writer) *z3proc {
 	cmd := exec.Command(bin, "-in")
 	in, _ := cmd.StdinPipe()
 	out, _ := cmd.StdoutPipe()
